@@ -19,34 +19,55 @@ def stationScan (img : List Nat) (base stride : Nat) (our : Mac) : Nat â†’ Nat â
   | k + 1, i =>
     if slice img (base + i * stride) 6 == our then (true, i + 1) else stationScan img base stride our k (i + 1)
 
-def deriveEvent (img : List Nat) (tbl : Option Table) (our : Option Mac) : EvOut :=
-  let len := img.length
-  if len < X.sizeofDemux then { event := -1, footprint := 0 } else
+/-- the clamped station count: what the wire says, bounded by what the frame holds -/
+def stationCount (img : List Nat) : Nat :=
+  let declared := unbe (slice img (X.sizeofDemux + X.offDiscCount) 2)
+  let maxStations := (img.length - (X.sizeofDemux + X.offDiscList)) / X.strideStation
+  if declared > maxStations then maxStations else declared
+
+/-- (acknowledged?, station entries examined) -/
+def ackScan (img : List Nat) (our : Option Mac) : Bool Ã— Nat :=
+  match our with
+  | none => (false, 0)
+  | some m =>
+    if unbe (slice img (X.sizeofDemux + X.offDiscCount) 2) = 0 then (true, 0)
+    else stationScan img (X.sizeofDemux + X.offDiscList) X.strideStation m (stationCount img) 0
+
+/-- the classification of a Discover that holds its fixed header -/
+def discoverEvent (img : List Nat) (tbl : Option Table) (our : Option Mac) : Int :=
+  let gen := fDiscGen img
+  let xid := fSeq img
+  let existing : Option Entry := match tbl with
+    | some t => (t.find (fRealSrc img) gen).bind (fun i => t.entries[i]?)
+    | none => none
+  let changed := match existing with | some e => e.seq != xid | none => false
+  if (ackScan img our).1 then (if changed then X.sessAckingChgd else X.sessAcking)
+  else (if changed then X.sessNoackChgd else X.sessNoack)
+
+/-- derive_session_event: the event code -/
+def deriveCode (img : List Nat) (tbl : Option Table) (our : Option Mac) : Int :=
+  if img.length < X.sizeofDemux then -1 else
   let op := fOpcode img
-  if op = X.opReset then
-    { event := if fRealDst img == bcast then X.sessTopoReset else X.sessReset, footprint := X.offRealDst + 6 }
-  else if op = X.opHello then { event := X.sessHello, footprint := X.offOpcode + 1 }
+  if op = X.opReset then (if fRealDst img == bcast then X.sessTopoReset else X.sessReset)
+  else if op = X.opHello then X.sessHello
   else if op = X.opDiscover then
-    let fixed := X.sizeofDemux + X.offDiscList
-    if len < fixed then { event := -1, footprint := X.offOpcode + 1 } else
-    let maxStations := (len - fixed) / X.strideStation
-    let gen := fDiscGen img
-    let xid := fSeq img
-    let existing : Option Entry := match tbl with
-      | some t => (t.find (fRealSrc img) gen).bind (fun i => t.entries[i]?)
-      | none => none
-    let declared := unbe (slice img (X.sizeofDemux + X.offDiscCount) 2)
-    let (acking, scanned) : Bool Ã— Nat := match our with
-      | none => (false, 0)
-      | some m =>
-        if declared = 0 then (true, 0)
-        else stationScan img fixed X.strideStation m (if declared > maxStations then maxStations else declared) 0
-    let changed := match existing with | some e => e.seq != xid | none => false
-    let ev : Int :=
-      if acking then (if changed then X.sessAckingChgd else X.sessAcking)
-      else (if changed then X.sessNoackChgd else X.sessNoack)
-    { event := ev, footprint := if scanned = 0 then fixed else fixed + (scanned - 1) * X.strideStation + 6 }
-  else { event := -1, footprint := X.offOpcode + 1 }
+    if img.length < X.sizeofDemux + X.offDiscList then -1 else discoverEvent img tbl our
+  else -1
+
+/-- 1 + the highest offset derive_session_event reads -/
+def deriveFootprint (img : List Nat) (our : Option Mac) : Nat :=
+  if img.length < X.sizeofDemux then 0 else
+  let op := fOpcode img
+  if op = X.opReset then X.offRealDst + 6
+  else if op = X.opHello then X.offOpcode + 1
+  else if op = X.opDiscover then
+    if img.length < X.sizeofDemux + X.offDiscList then X.offOpcode + 1 else
+    let n := (ackScan img our).2
+    if n = 0 then X.sizeofDemux + X.offDiscList else X.sizeofDemux + X.offDiscList + (n - 1) * X.strideStation + 6
+  else X.offOpcode + 1
+
+def deriveEvent (img : List Nat) (tbl : Option Table) (our : Option Mac) : EvOut :=
+  { event := deriveCode img tbl our, footprint := deriveFootprint img our }
 
 /-- lltd_esp32_handle_frame on a frame of exactly `frame.length` bytes -/
 def espHandleFrame (fm fs fe : Fsm) (frame : List Nat) (nowS : Nat) : Fsm Ã— Fsm Ã— Fsm :=
